@@ -109,6 +109,47 @@ def negative(p, name, rec, case, rowkey, what):
                       row=rowkey)
 
 
+def leaf_component_check(core, v, seg, row, rec, k):
+    rowkey = '%s|%s|%s|leaf-component' % (v, seg, row.name)
+    case = {'kind': 'leaf-component', 'version': v, 'segment': seg, 'row': row.name}
+    dt = row.datatype
+    try:
+        f = core.Field(row.name, version=v)
+        if dt == 'varies':
+            f.value = 'a^b'
+            names = ['VARIES_1', 'VARIES_2']
+        else:
+            f.value = gen.witness(v, dt)
+            names = [dt]
+        for cname in names:
+            lst = f.children.indexes.get(cname, [])
+            if len(lst) != 1:
+                rec.count('leaf_component_rows_without_named_component')
+                return
+            tgt = lst[0]
+            sp = [('name-lower', cname.lower()), ('name-upper', cname.upper()), ('name-mixed', mixed(cname))]
+            if dt != 'varies':
+                sp += [('positional-lower', '%s_1' % row.name.lower()), ('positional-upper', '%s_1' % row.name.upper())]
+            for rkind, rname in sp:
+                rec.evaluation((rowkey, cname, rkind, 'read'), nontrivial=rkind != 'name-upper')
+                got = getattr(f, rname)
+                rec.count('identity_comparisons')
+                if got is None or len(got) != 1 or got[0] is not tgt:
+                    rec.violation('alias-mismatch:%s' % rkind.split('-')[0], case, {'read_as': rname, 'got': repr(got)[:100]},
+                                  row=rowkey)
+                    return
+        # delete through an alias (rotating), the last named component first
+        sp_d = [names[-1].lower(), mixed(names[-1]), names[-1].upper()][k % 3]
+        rec.evaluation((rowkey, names[-1], sp_d, 'delete'))
+        delattr(f, sp_d)
+        if f.children.indexes.get(names[-1]):
+            rec.violation('delete-through-alias-left-child:name', case, {'deleted_as': sp_d}, row=rowkey)
+            return
+        rec.count('leaf_component_rows_aliased')
+    except Exception as e:
+        rec.violation('raised:%s' % type(e).__name__, case, {'exc': repr(e)[:200]}, row=rowkey)
+
+
 def run_fields(spec, rec):
     from hl7apy import core
     v = spec['version']
@@ -135,6 +176,12 @@ def run_fields(spec, rec):
                 continue
             text, _, _ = c02.field_witness(v, row)
             alias_check(lambda: core.Segment(seg, version=v), core.Segment, row, rows, text, rec, rowkey, case, k)
+        # the single component of a base-datatype field is addressed by the datatype name and by the positional path
+        # <field>_1, in any letter case; the components of a varies field by VARIES_<n>
+        for row in rows:
+            if not row.ok or row.kind != 'leaf' or row.card[1] == 0 or (seg == 'MSH' and row.num in (1, 2)):
+                continue
+            leaf_component_check(core, v, seg, row, rec, k)
         rec.count('field_rows_enumerated', len([r for r in rows if not (seg == 'MSH' and r.num in (1, 2))]))
         # negative cases for this segment
         other = names[(si + 1) % len(names)]
@@ -162,6 +209,7 @@ def run_components(spec, rec):
     hosts = c02._host_fields(v)
     k = 0
     n = 0
+    prev_host = None
     for dt in tables.complex_datatypes(v):
         comps = tables.components(v, dt)
         host = hosts.get(dt)
@@ -234,6 +282,17 @@ def run_components(spec, rec):
                     negative(f, oc.name.lower(), rec, case, '%s|%s' % (v, dt), 'component-of-another-datatype')
             negative(f, '%s_%d' % (host.lower(), len(comps) + 1), rec, case, '%s|%s' % (v, dt),
                      'positional-path-beyond-datatype')
+            # the positional path of ANOTHER field, used on its owner first (a shared path cache would then answer)
+            if prev_host and prev_host != host:
+                owner = core.Field(prev_host, version=v)
+                for path in ('%s_1' % prev_host.lower(), '%s_1_1' % prev_host.lower()):
+                    try:
+                        getattr(owner, path)
+                    except Exception:
+                        pass
+                    negative(core.Field(host, version=v), path, rec, case, '%s|%s' % (v, dt),
+                             'positional-path-of-another-field')
+            prev_host = host
     rec.count('component_rows_enumerated', n)
     rec.count('component_rows_in_tables', sum(len(tables.components(v, d)) for d in tables.complex_datatypes(v)))
     rec.seen('versions', v)
